@@ -705,3 +705,66 @@ def named_scenario_refused(ctx, rid, body, scenario, key, what, sinks=None, poli
            where=f"{body.file}:{bad[0][1] if bad else body.line}", detail=detail,
            sample={"scenario": scenario, "edges_cut": len(cut)})
     return not bad
+
+
+# ---------------------------------------------------------------- bool payloads
+def payload_bool_edges(fv, bi, call):
+    """for a call returning Result<bool,_> / Option<bool> / (bool, _): edges taken when the inner bool is
+    true / false.  Returns (true_edges, false_edges)."""
+    b = fv.b
+    if not call.dest.is_local():
+        return set(), set()
+    carriers = {call.dest.local}
+    bools = set()
+    changed = True
+    while changed:
+        changed = False
+        for bj in fv.live_blocks():
+            for s in b.stmts(bj):
+                if s.kind != "a" or not s.place.is_local():
+                    continue
+                rv = s.rv
+                pl = rv.ops[0].place if rv.op == "use" and rv.ops else (rv.place if rv.op == "ref" else None)
+                if pl is None or pl.local not in carriers:
+                    continue
+                dst = s.place.local
+                fields = [p for p in pl.proj if isinstance(p, tuple) and p[0] == "f"]
+                if b.ty(dst) == "bool" and fields and fields[-1][2] == "0":
+                    if dst not in bools:
+                        bools.add(dst)
+                        changed = True
+                elif dst not in carriers and b.ty(dst) != "bool":
+                    carriers.add(dst)
+                    changed = True
+            t = b.term(bj)
+            if t.kind == "call" and t.call.args and t.call.args[0].place is not None and \
+               t.call.args[0].place.local in carriers and t.call.dest.is_local():
+                nm = t.call.callee.name if t.call.callee else ""
+                from .cfg import IDENTITY_CALLS, UNWRAP_CALLS
+                if any(f in nm for f in IDENTITY_CALLS) or any(nm.endswith(u) for u in UNWRAP_CALLS):
+                    d = t.call.dest.local
+                    if b.ty(d) == "bool":
+                        if d not in bools:
+                            bools.add(d)
+                            changed = True
+                    elif d not in carriers:
+                        carriers.add(d)
+                        changed = True
+    te, fe = set(), set()
+    for l in bools:
+        fv._follow(l, False, "ok", te, set())
+        fv._follow(l, False, "err", fe, set())
+    # `if let (true, x) = call(..)`: the switch reads the tuple's field 0 in place
+    for bj in fv.live_blocks():
+        t = b.term(bj)
+        if t.kind == "switch" and t.discr.place is not None and t.discr.place.local in carriers:
+            fields = [p for p in t.discr.place.proj if isinstance(p, tuple) and p[0] == "f"]
+            if fields and fields[-1][2] == "0":
+                listed = {v for v, _ in t.arms}
+                for v, tg in t.arms:
+                    (te if v != 0 else fe).add((bj, tg))
+                if listed == {0}:
+                    te.add((bj, t.otherwise))
+                elif listed == {1}:
+                    fe.add((bj, t.otherwise))
+    return te, fe
